@@ -227,20 +227,24 @@ def stats_recount(cfg, cpus=4, ram=40, da=1, db=1, dc=1, ma=None, mb=None, pa=3,
     return ""
 
 
-def uncontended(algo, multi, n, d0, d1, d2, m, cpus, ram, K=12, want=""):
+def uncontended(algo, multi, n, d0, d1, d2, m, cpus, ram, K=12, t0=-1, t1=0, t2=0, want=""):
     """C06 last clause: a lone chain with enough memory finishes in exactly the ticks its operators
     need (multi-operator containers: one container, no gaps; arrival at tick 0)."""
     durs = [d0, d1, d2][:n]
     cfg = dict(algo=algo, pools=2 if algo == "priority-pool" else 1, multi=multi, oc=(algo == "overbook"),
                duration=K, pipes=[dict(shape={1: "single", 2: "chain2", 3: "chain3"}[n], prio=3, at=0, durs=durs, mems=[m] * n)])
+    tails = [t0, t1, t2][:n]
+    if t0 >= 0:
+        # two-segment operators: a trailing segment that reads t_j GB (t_j // 20 ticks, possibly a positive time of zero ticks)
+        cfg["pipes"][0]["tails"] = tails
     flat = dict(cpus=cpus, ram=ram)
     try:
         stats, rec, pending, params = simulate(cfg, flat)
     except Exception as e:
         return f"C06:run_raised:{exc_name(e)}@{_where(e)}"
     need = 0
-    for d in durs:
-        need = need + d
+    for j, d in enumerate(durs):
+        need = need + d + (tails[j] // 20 if t0 >= 0 else 0)
     p = pending[0][1]
     fin = p.runtime_status().finish_tick
     if need > K:
